@@ -42,7 +42,43 @@ import (
 type opJ struct {
 	Op string `json:"op"`
 	P  string `json:"p,omitempty"` // payload, hex
+	G  uint32 `json:"g,omitempty"` // or: payload = lcgBytes(G, N)
+	N  int    `json:"n,omitempty"`
 	K  int64  `json:"k,omitempty"`
+}
+
+// lcgBytes is the payload generator shared with Run_C03.v (pg): xorshift32 started
+// at seed|1, one byte (the low one) per step.  Payloads that are not printed
+// literally are described by (seed, len) so that the Coq case files stay small.
+func lcgBytes(seed uint32, n int) []byte {
+	b := make([]byte, n)
+	x := seed | 1
+	for i := range b {
+		x ^= x << 13
+		x ^= x >> 17
+		x ^= x << 5
+		b[i] = byte(x)
+	}
+	return b
+}
+
+// Parsing and compiling literals dominates the Coq side, so generated payloads
+// longer than opLitMax bytes are described by their LCG seed and observed byte
+// strings longer than litMax bytes by (length, CRC-32C).
+const (
+	opLitMax = 4
+	litMax   = 24
+)
+
+// byte string as a Coq term of type bytes
+func coqLit(b []byte) string { return "(hx \"" + hex.EncodeToString(b) + "\")" }
+
+// observed byte string: literal, or (length, CRC-32C by Go's hash/crc32) when long
+func coqBlob(b []byte) string {
+	if len(b) <= litMax {
+		return "(Lit " + coqLit(b) + ")"
+	}
+	return fmt.Sprintf("(Dig %d %d)", len(b), crc32.Checksum(b, crc32.MakeTable(crc32.Castagnoli)))
 }
 
 type histIn struct {
@@ -64,14 +100,24 @@ type crcIn struct {
 	B string `json:"b"`
 }
 
-func (o opJ) payload() []byte { b, _ := hex.DecodeString(o.P); return b }
+func (o opJ) payload() []byte {
+	if o.P == "" && o.N > 0 {
+		return lcgBytes(o.G, o.N)
+	}
+	b, _ := hex.DecodeString(o.P)
+	return b
+}
 
 func opsCoq(ops []opJ) string {
 	items := make([]string, len(ops))
 	for i, o := range ops {
 		switch o.Op {
 		case "append":
-			items[i] = "Append " + hxlib.CoqBytes(o.payload())
+			if o.P == "" && o.N > 0 {
+				items[i] = fmt.Sprintf("Append (pg %d %d)", o.G, o.N)
+			} else {
+				items[i] = "Append " + coqLit(o.payload())
+			}
 		case "flush":
 			items[i] = "Flush"
 		case "sync":
@@ -146,10 +192,18 @@ func segName(dir string, idx uint64) string {
 	return filepath.Join(dir, fmt.Sprintf("%s_%d", walName, idx))
 }
 
+func segsLit(fs []segFile) string {
+	items := make([]string, len(fs))
+	for i, f := range fs {
+		items[i] = fmt.Sprintf("(%d, %s)", f.idx, coqLit(f.b))
+	}
+	return hxlib.CoqList(items)
+}
+
 func segsCoq(fs []segFile) string {
 	items := make([]string, len(fs))
 	for i, f := range fs {
-		items[i] = fmt.Sprintf("(%d, %s)", f.idx, hxlib.CoqBytes(f.b))
+		items[i] = fmt.Sprintf("(%d, %s)", f.idx, coqBlob(f.b))
 	}
 	return hxlib.CoqList(items)
 }
@@ -165,7 +219,7 @@ type obsT struct {
 func (o obsT) coq() string {
 	rs := make([]string, len(o.recs))
 	for i, r := range o.recs {
-		rs[i] = hxlib.CoqBytes(r)
+		rs[i] = coqBlob(r)
 	}
 	return fmt.Sprintf("(Obs %s %d %s)", hxlib.CoqList(rs), o.err, segsCoq(o.files))
 }
@@ -469,6 +523,14 @@ func randPayload(r *rand.Rand, n int) []byte {
 
 func appendOp(p []byte) opJ { return opJ{Op: "append", P: hex.EncodeToString(p)} }
 
+// appendN: a random payload of n bytes; long ones are described by an LCG seed
+func appendN(r *rand.Rand, n int) opJ {
+	if n > opLitMax {
+		return opJ{Op: "append", G: r.Uint32(), N: n}
+	}
+	return appendOp(randPayload(r, n))
+}
+
 type profile struct {
 	name     string
 	nOps     func(r *rand.Rand) int
@@ -480,6 +542,7 @@ type profile struct {
 	pSync    int
 	pFlush   int
 	pRestart int
+	fanLast  bool // side branches only at the final crash point
 }
 
 // candidate crash offsets inside the unsynced region of the tail
@@ -541,16 +604,16 @@ func genHistory(c *hxlib.Ctx, r *rand.Rand, pf profile, forced []opJ) {
 		ops = append(ops, o)
 		wd.apply(o)
 	}
-	crashPoint := func() {
+	crashPoint := func(last bool) {
 		ks := candidateKs(r, wd, pf)
 		main := ks[r.Intn(len(ks))]
 		for _, k := range ks {
-			if k == main {
+			if k == main || (pf.fanLast && !last) {
 				continue
 			}
 			br := wd.crashCopy(k)
-			suffix := []opJ{{Op: "recover"}, appendOp(randPayload(r, pf.size(r))), {Op: "sync"},
-				appendOp(randPayload(r, pf.size(r))), {Op: "flush"}}
+			suffix := []opJ{{Op: "recover"}, appendN(r, pf.size(r)), {Op: "sync"},
+				appendN(r, pf.size(r)), {Op: "flush"}}
 			bops := append(append([]opJ(nil), ops...), opJ{Op: "crash", K: k})
 			var final []segFile
 			p := hxlib.Catch(func() {
@@ -574,7 +637,7 @@ func genHistory(c *hxlib.Ctx, r *rand.Rand, pf profile, forced []opJ) {
 			if p != "" {
 				br.fail("panic: %s", p)
 			}
-			c.Emit(histCase(pf.name+"-branch", bops, br.obs, final, br.oracle, c.OracleOnly))
+			emit(histCase(pf.name+"-branch", bops, br.obs, final, br.oracle, c.OracleOnly))
 			br.discard()
 		}
 		do(opJ{Op: "crash", K: main})
@@ -583,7 +646,7 @@ func genHistory(c *hxlib.Ctx, r *rand.Rand, pf profile, forced []opJ) {
 	p := hxlib.Catch(func() {
 		for _, o := range forced {
 			if o.Op == "crash" {
-				crashPoint()
+				crashPoint(true)
 			} else {
 				do(o)
 			}
@@ -592,7 +655,7 @@ func genHistory(c *hxlib.Ctx, r *rand.Rand, pf profile, forced []opJ) {
 			x := r.Intn(1000)
 			switch {
 			case x < pf.pCrash:
-				crashPoint()
+				crashPoint(false)
 			case x < pf.pCrash+pf.pShift:
 				do(opJ{Op: "shift"})
 			case x < pf.pCrash+pf.pShift+pf.pSync:
@@ -602,21 +665,21 @@ func genHistory(c *hxlib.Ctx, r *rand.Rand, pf profile, forced []opJ) {
 			case x < pf.pCrash+pf.pShift+pf.pSync+pf.pFlush+pf.pRestart:
 				do(opJ{Op: "recover"})
 			default:
-				do(appendOp(randPayload(r, pf.size(r))))
+				do(appendN(r, pf.size(r)))
 			}
 		}
 		// every history ends with a crash and a recovery
 		if r.Intn(3) > 0 {
 			do(opJ{Op: "flush"})
 		}
-		crashPoint()
+		crashPoint(true)
 		final := listSegs(wd.dir)
-		c.Emit(histCase(pf.name, ops, wd.obs, final, wd.oracle, c.OracleOnly))
+		emit(histCase(pf.name, ops, wd.obs, final, wd.oracle, c.OracleOnly))
 		emitted = true
 	})
 	if p != "" && !emitted {
 		wd.fail("panic: %s", p)
-		c.Emit(histCase(pf.name, ops, wd.obs, nil, wd.oracle, true))
+		emit(histCase(pf.name, ops, wd.obs, nil, wd.oracle, true))
 	}
 }
 
@@ -627,7 +690,9 @@ func frameOf(p []byte) []byte {
 	copy(f[8:], p)
 	return f
 }
-func be32(v uint32) (byte, byte, byte, byte) { return byte(v >> 24), byte(v >> 16), byte(v >> 8), byte(v) }
+func be32(v uint32) (byte, byte, byte, byte) {
+	return byte(v >> 24), byte(v >> 16), byte(v >> 8), byte(v)
+}
 
 func runDisk(files []segFile) (o obsT, problem string) {
 	dir := newDir()
@@ -654,12 +719,28 @@ func genDisk(c *hxlib.Ctx, r *rand.Rand) {
 	nseg := 1 + r.Intn(3)
 	first := uint64(r.Intn(3))
 	var files []segFile
+	// positions of the two high bytes of every length field: never damaged, so that
+	// ReadBytes does not allocate gigabytes (make([]byte, payloadLen) trusts the header)
+	hiLen := map[[2]int]bool{}
 	for s := 0; s < nseg; s++ {
 		var b []byte
 		for j := r.Intn(4); j > 0; j-- {
+			hiLen[[2]int{s, len(b) + 4}] = true
+			hiLen[[2]int{s, len(b) + 5}] = true
 			b = append(b, frameOf(randPayload(r, []int{0, 1, 5, 17, 40}[r.Intn(5)]))...)
 		}
 		files = append(files, segFile{first + uint64(s), b})
+	}
+	// a header-shaped piece of garbage with a length field below 2^16
+	garbage := func(n int) []byte {
+		g := randPayload(r, n)
+		if n > 4 {
+			g[4] = 0
+		}
+		if n > 5 {
+			g[5] = 0
+		}
+		return g
 	}
 	t := r.Intn(nseg)
 	b := files[t].b
@@ -670,7 +751,11 @@ func genDisk(c *hxlib.Ctx, r *rand.Rand) {
 		if len(b) > 0 {
 			kind = "disk-flip"
 			b = append([]byte(nil), b...)
-			b[r.Intn(len(b))] ^= byte(1 << uint(r.Intn(8)))
+			p := r.Intn(len(b))
+			for hiLen[[2]int{t, p}] {
+				p += 2
+			}
+			b[p] ^= byte(1 << uint(r.Intn(8)))
 		}
 	case 2:
 		if len(b) > 0 {
@@ -679,7 +764,7 @@ func genDisk(c *hxlib.Ctx, r *rand.Rand) {
 		}
 	case 3:
 		kind = "disk-garbage"
-		b = append(append([]byte(nil), b...), randPayload(r, 1+r.Intn(20))...)
+		b = append(append([]byte(nil), b...), garbage(1+r.Intn(20))...)
 	case 4:
 		kind = "disk-zero-header" // eight zero bytes are a valid empty record (crc32c("") = 0)
 		b = append(append([]byte(nil), b...), make([]byte, 8+r.Intn(3))...)
@@ -699,6 +784,11 @@ func genDisk(c *hxlib.Ctx, r *rand.Rand) {
 		}
 	}
 	files[t].b = b
+	if !lengthsSmall(files) {
+		// a misaligned header whose length field is huge: ReadBytes would allocate it
+		// (make([]byte, payloadLen) trusts the header); skipped to keep the run cheap
+		return
+	}
 	o, problem := runDisk(files)
 	in := diskIn{T: "disk"}
 	for _, f := range files {
@@ -709,9 +799,34 @@ func genDisk(c *hxlib.Ctx, r *rand.Rand) {
 		cs.OracleErr = "recovery of a damaged directory panicked: " + problem
 	}
 	if !c.OracleOnly {
-		cs.Coq = fmt.Sprintf("(CDisk %s %s)", segsCoq(files), o.coq())
+		cs.Coq = fmt.Sprintf("(CDisk %s %s)", segsLit(files), o.coq())
 	}
-	c.Emit(cs)
+	emit(cs)
+}
+
+// lengthsSmall walks the concatenated segments the way the reader does and reports
+// whether every header it would interpret announces fewer than 2^20 bytes.
+func lengthsSmall(files []segFile) bool {
+	var s []byte
+	for _, f := range files {
+		s = append(s, f.b...)
+	}
+	tab := crc32.MakeTable(crc32.Castagnoli)
+	for len(s) >= 8 {
+		n := int(uint32(s[4])<<24 | uint32(s[5])<<16 | uint32(s[6])<<8 | uint32(s[7]))
+		if n >= 1<<20 {
+			return false
+		}
+		if len(s)-8 < n {
+			return true
+		}
+		crc := uint32(s[0])<<24 | uint32(s[1])<<16 | uint32(s[2])<<8 | uint32(s[3])
+		if crc32.Checksum(s[8:8+n], tab) != crc {
+			return true
+		}
+		s = s[8+n:]
+	}
+	return true
 }
 
 func corpusDir() string {
@@ -751,7 +866,7 @@ func genCorpus(c *hxlib.Ctx) {
 		if oracle != "" {
 			oracle = "corpus history " + filepath.Base(n) + ": " + oracle
 		}
-		c.Emit(histCase("corpus", doc.Input.Ops, obs, final, oracle, c.OracleOnly))
+		emit(histCase("corpus", doc.Input.Ops, obs, final, oracle, c.OracleOnly))
 	}
 }
 
@@ -766,6 +881,36 @@ func small(r *rand.Rand) int {
 	}
 }
 
+// cases are queued and handed to hxlib in an order that spreads the heavy ones
+// (long histories) evenly over the Coq shards, which are evaluated in parallel
+var queue []hxlib.Case
+
+func emit(cs hxlib.Case) { queue = append(queue, cs) }
+
+func flushQueue(c *hxlib.Ctx, shard int) {
+	sort.SliceStable(queue, func(i, j int) bool { return len(queue[i].Coq) > len(queue[j].Coq) })
+	nb := (len(queue) + shard - 1) / shard
+	if nb == 0 {
+		return
+	}
+	buckets := make([][]hxlib.Case, nb)
+	for i, cs := range queue {
+		k := i % (2 * nb) // snake order
+		if k >= nb {
+			k = 2*nb - 1 - k
+		}
+		buckets[k] = append(buckets[k], cs)
+	}
+	for _, b := range buckets {
+		for _, cs := range b {
+			c.Emit(cs)
+		}
+	}
+	queue = nil
+}
+
+const shardSize = 120
+
 func gen(c *hxlib.Ctx) {
 	r := c.Rand
 	genCorpus(c)
@@ -774,7 +919,7 @@ func gen(c *hxlib.Ctx) {
 		allK: 90, maxFan: 14, pShift: 90, pCrash: 60, pSync: 200, pFlush: 150, pRestart: 30}
 	shifty := profile{name: "shift", nOps: func(r *rand.Rand) int { return 4 + r.Intn(6) }, size: small,
 		allK: 60, maxFan: 12, pShift: 330, pCrash: 70, pSync: 80, pFlush: 150, pRestart: 30}
-	long := profile{name: "long", nOps: func(r *rand.Rand) int { return 15 + r.Intn(30) },
+	long := profile{name: "long", fanLast: true, nOps: func(r *rand.Rand) int { return 10 + r.Intn(16) },
 		size: func(r *rand.Rand) int {
 			switch r.Intn(12) {
 			case 0:
@@ -789,7 +934,7 @@ func gen(c *hxlib.Ctx) {
 				return r.Intn(120)
 			}
 		},
-		allK: 24, maxFan: 9, pShift: 60, pCrash: 70, pSync: 120, pFlush: 40, pRestart: 20}
+		allK: 24, maxFan: 8, pShift: 60, pCrash: 90, pSync: 120, pFlush: 40, pRestart: 20}
 
 	t0 := time.Now()
 	lap := func(what string) {
@@ -805,11 +950,11 @@ func gen(c *hxlib.Ctx) {
 	// crash right after Shift with a partial first record in the new segment,
 	// also after two Shifts in a row (empty middle segment)
 	for i := 0; i < c.N(12); i++ {
-		forced := []opJ{appendOp(randPayload(r, small(r))), {Op: "sync"}, {Op: "shift"}}
+		forced := []opJ{appendN(r, small(r)), {Op: "sync"}, {Op: "shift"}}
 		if i%3 == 0 {
 			forced = append(forced, opJ{Op: "shift"})
 		}
-		forced = append(forced, appendOp(randPayload(r, 1+r.Intn(20))), opJ{Op: "flush"}, opJ{Op: "crash"})
+		forced = append(forced, appendN(r, 1+r.Intn(20)), opJ{Op: "flush"}, opJ{Op: "crash"})
 		genHistory(c, r, shifty, forced)
 	}
 	for i := 0; i < c.N(12); i++ {
@@ -823,15 +968,15 @@ func gen(c *hxlib.Ctx) {
 	// the buffer exactly full / one byte over, crash without any flush
 	for i := 0; i < c.N(4); i++ {
 		var forced []opJ
-		forced = append(forced, appendOp(randPayload(r, r.Intn(50))), opJ{Op: "sync"})
+		forced = append(forced, appendN(r, r.Intn(50)), opJ{Op: "sync"})
 		for _, n := range [][]int{{4088, 1}, {2000, 2080, 5}, {4089}, {100, 4500}, {4000, 80, 9000}}[i%5] {
-			forced = append(forced, appendOp(randPayload(r, n)))
+			forced = append(forced, appendN(r, n))
 		}
 		forced = append(forced, opJ{Op: "crash"})
 		genHistory(c, r, long, forced)
 	}
 	lap("bufio")
-	for i := 0; i < c.N(250); i++ {
+	for i := 0; i < c.N(300); i++ {
 		genDisk(c, r)
 	}
 	lap("disk")
@@ -850,22 +995,28 @@ func gen(c *hxlib.Ctx) {
 		}
 		cs := hxlib.Case{Kind: "crc", Input: crcIn{T: "crc", B: hex.EncodeToString(b)}, Nontrivial: n > 0}
 		if !c.OracleOnly {
-			cs.Coq = fmt.Sprintf("(CCrc %s %d)", hxlib.CoqBytes(b), crc32.Checksum(b, tab))
+			cs.Coq = fmt.Sprintf("(CCrc %s %d)", coqLit(b), crc32.Checksum(b, tab))
 		}
-		c.Emit(cs)
+		emit(cs)
 	}
+	flushQueue(c, shardSize)
 	// canaries: wrong observations the model must flag
 	p1, p2 := []byte{1, 2, 3}, []byte{9, 8}
 	f1 := frameOf(p1)
 	c.Emit(hxlib.Case{Kind: "canary", Canary: true, // a synced record missing from the observation
 		Coq: fmt.Sprintf("(CHist %s [(Obs [] 0 [(0, %s)])] [(0, %s)])",
 			opsCoq([]opJ{appendOp(p1), {Op: "sync"}, appendOp(p2), {Op: "crash"}, {Op: "recover"}}),
-			hxlib.CoqBytes(f1), hxlib.CoqBytes(f1))})
+			coqBlob(f1), coqBlob(f1))})
 	c.Emit(hxlib.Case{Kind: "canary", Canary: true, // header-only tail observed as a clean EOF (pre-fix behaviour)
 		Coq: fmt.Sprintf("(CDisk [(0, %s)] (Obs [%s] 0 [(0, %s)]))",
-			hxlib.CoqBytes(append(append([]byte(nil), f1...), frameOf(p2)[:8]...)), hxlib.CoqBytes(p1),
-			hxlib.CoqBytes(append(append([]byte(nil), f1...), frameOf(p2)[:8]...)))})
-	c.Emit(hxlib.Case{Kind: "canary", Canary: true, Coq: "(CCrc [49;50;51] 0)"})
+			coqLit(append(append([]byte(nil), f1...), frameOf(p2)[:8]...)), coqBlob(p1),
+			coqBlob(append(append([]byte(nil), f1...), frameOf(p2)[:8]...)))})
+	// a digest observation with a wrong checksum
+	big := lcgBytes(7, 300)
+	c.Emit(hxlib.Case{Kind: "canary", Canary: true,
+		Coq: fmt.Sprintf("(CHist [Append (pg 7 300); Sync; Recover] [(Obs [(Dig 300 %d)] 0 [(0, (Dig 308 %d))])] [(0, (Dig 308 %d))])",
+			crc32.Checksum(big, tab)+1, crc32.Checksum(frameOf(big), tab), crc32.Checksum(frameOf(big), tab))})
+	c.Emit(hxlib.Case{Kind: "canary", Canary: true, Coq: "(CCrc (hx \"313233\") 0)"})
 }
 
 func replay(raw json.RawMessage) string {
@@ -910,8 +1061,9 @@ func main() {
 			"or at frame-boundary offsets +0,1,4,7,8,9,mid,end-1 plus random k (long histories, payloads up to 9000 bytes overflowing the 4096-byte bufio buffer, zero-length payloads); " +
 			"every side branch continues recover/append/sync/append/flush/crash/recover; plus damaged directories (bit flip, cut, garbage, zero header, big length, header only) and CRC-32C vectors; " +
 			"non-trivial = a history with at least one append, one crash and one recovery, a damaged directory, a non-empty CRC input; distinct = distinct operation list",
-		Shard:  150,
-		Gen:    gen,
-		Replay: replay,
+		Preamble: "From Goloop Require Import lib.Bytes Model_Wal.\nFrom GoloopRun Require Import Run_C03.",
+		Shard:    shardSize,
+		Gen:      gen,
+		Replay:   replay,
 	})
 }
